@@ -447,7 +447,7 @@ structure RecInv (s : St) (r : Nat) (x : Rec) : Prop where
   /-- the current instance exists and points back -/
   k5 : ∀ n, x.rctx = some n → ∃ y, s.insts[n]? = some y ∧ y.rid = r
   /-- a recorded failure belongs to an instance that has exited -/
-  kx : x.err ≠ none → ∀ n, x.rctx = some n → ∃ y, s.insts[n]? = some y ∧ y.st = .closed
+  kx : (x.err ≠ none ∨ x.exited = true) → ∀ n, x.rctx = some n → ∃ y, s.insts[n]? = some y ∧ y.st = .closed
 
 def AllRec (s : St) : Prop := ∀ r x, s.recs[r]? = some x → RecInv s r x
 
@@ -628,7 +628,7 @@ theorem csok_set (s : St) (r : Nat) (x y : Rec) (hx : s.recs[r]? = some x)
     (h1 : y.rctx = x.rctx)
     (h2 : y.cancelOf = x.cancelOf ∨ y.cancelOf = none)
     (h3 : y.exitedCh = x.exitedCh ∨ y.exitedCh = none)
-    (h4 : y.err = x.err ∨ ∀ n, y.rctx = some n → ∃ z, s.insts[n]? = some z ∧ z.st = .closed) :
+    (h4 : (y.err = x.err ∧ y.exited = x.exited) ∨ ∀ n, y.rctx = some n → ∃ z, s.insts[n]? = some z ∧ z.st = .closed) :
     CSOK s { s with recs := s.recs.set r y } := by
   refine ⟨InstsExt.of_eq rfl, fun h => h.set r y ?_⟩
   have hr := h r x hx
@@ -636,7 +636,9 @@ theorem csok_set (s : St) (r : Nat) (x y : Rec) (hx : s.recs[r]? = some x)
   rotate_left 3
   · intro he n hn
     rcases h4 with e | e
-    · exact hr.kx (e ▸ he) n (h1 ▸ hn)
+    · rcases he with he | he
+      · exact hr.kx (Or.inl (e.1 ▸ he)) n (h1 ▸ hn)
+      · exact hr.kx (Or.inr (e.2 ▸ he)) n (h1 ▸ hn)
     · exact e n hn
   · intro n hn
     rcases h3 with e | e
@@ -658,7 +660,7 @@ theorem csok_detachPrev (s : St) : CSOK s (detachPrev s).1 := by
       simp only [detachPrev, hr, hx]
       refine (csok_cancelOpt s x.cancelOf).trans ?_
       have hx' : (cancelOpt s x.cancelOf).recs[r]? = some x := by simpa using hx
-      exact (csok_set _ r x { x with cancelOf := none } hx' rfl (Or.inr rfl) (Or.inl rfl) (Or.inl rfl)).trans
+      exact (csok_set _ r x { x with cancelOf := none } hx' rfl (Or.inr rfl) (Or.inl rfl) (Or.inl ⟨rfl, rfl⟩)).trans
         (CSOK.of_eq rfl rfl)
 
 theorem csok_setContextCS (s : St) (c : Nat) (restart : Bool) : CSOK s (setContextCS s c restart).1 := by
@@ -690,9 +692,9 @@ theorem csok_restartCS (s : St) : CSOK s (restartCS s).1 := by
       have hx' : (cancelOpt (normCtx s) x.cancelOf).recs[r]? = some x := by simpa using hx
       have h1 : CSOK s (cancelOpt (normCtx s) x.cancelOf) := (csok_normCtx s).trans (csok_cancelOpt _ _)
       split
-      · exact h1.trans (csok_set _ r x { x with cancelOf := none } hx' rfl (Or.inr rfl) (Or.inl rfl) (Or.inl rfl))
+      · exact h1.trans (csok_set _ r x { x with cancelOf := none } hx' rfl (Or.inr rfl) (Or.inl rfl) (Or.inl ⟨rfl, rfl⟩))
       · refine (h1.trans ?_).trans (csok_bcast _)
-        have h2 := csok_set _ r x { x with cancelOf := none, exitedCh := none } hx' rfl (Or.inr rfl) (Or.inr rfl) (Or.inl rfl)
+        have h2 := csok_set _ r x { x with cancelOf := none, exitedCh := none } hx' rfl (Or.inr rfl) (Or.inr rfl) (Or.inl ⟨rfl, rfl⟩)
         refine CSOK.trans ?_ (csok_startRec _ r _ x.exitedCh true)
         simpa using h2
 
@@ -899,7 +901,7 @@ theorem csok_timerBody (s : St) (t r : Nat) : CSOK s (timerBody s t r) := by
   split
   · rename_i x hx
     split
-    · exact (csok_set s r x { x with retry := none } hx rfl (Or.inl rfl) (Or.inl rfl) (Or.inl rfl)).trans (csok_startRec _ _ _ _ _)
+    · exact (csok_set s r x { x with retry := none } hx rfl (Or.inl rfl) (Or.inl rfl) (Or.inl ⟨rfl, rfl⟩)).trans (csok_startRec _ _ _ _ _)
     · exact CSOK.refl s
   · exact CSOK.refl s
 
